@@ -364,7 +364,13 @@ def main():
                 "    with their parameters, in-place operators in the value and in the expression case -/",
                 "theorem c04_lift_full {V : Type} (ops : RefsLift.PyOps2 V) (t : RefsLift.Term2 V) (hw : RefsLift.WF2 t) :",
                 "    ∃ node, RefsLift.build2 tbl t = some node ∧ RefsLift.evalNode2 tbl ops node = RefsLift.evalDirect2 ops t :=",
-                "  RefsLift.build_eval2 tbl valid_ops coherent ops t hw"],
+                "  RefsLift.build_eval2 tbl valid_ops coherent ops t hw",
+                "",
+                "/-- the same with the node's classes shown to lie in the fixed class universe the validity test is closed over -/",
+                "theorem c04_lift_universe {V : Type} (ops : RefsLift.PyOps2 V) (t : RefsLift.Term2 V) (hw : RefsLift.WF2 t) :",
+                "    ∃ node, RefsLift.build2 tbl t = some node ∧ RefsLift.evalNode2 tbl ops node = RefsLift.evalDirect2 ops t ∧",
+                "      RefsLift.nodeInUniverse node = true :=",
+                "  RefsLift.build_eval2_universe tbl valid_ops coherent ops t hw"],
         "C05": ["/-- the per-run obligation of Tie A for C05 -/",
                 "theorem valid_deps : tbl.ValidDeps = true := by decide",
                 "",
@@ -375,13 +381,26 @@ def main():
                 "/-- and the value of such a tree depends only on the reported locations -/",
                 "theorem c05_semantic {V : Type} (I : RefsLift.DSem V) (n : DNode) (hw : wellSlotted tbl.deps n = true)",
                 "    (e1 e2 : Nat → V) (h : ∀ id ∈ depsOf tbl.deps n, e1 id = e2 id) : RefsLift.evalD I e1 n = RefsLift.evalD I e2 n :=",
-                "  RefsLift.value_depends_only_on_reported tbl.deps I n hw e1 e2 h"],
+                "  RefsLift.value_depends_only_on_reported tbl.deps I n hw e1 e2 h",
+                "",
+                "/-- with a hypothesis on the TREE alone (its classes and slots belong to the library's universe): the validity of the",
+                "    regenerated table is what makes every such tree well slotted -/",
+                "theorem c05_lift_universe (n : DNode) (h : InUniverse n = true) : depsOf tbl.deps n = leafs n :=",
+                "  deps_exact_universe tbl valid_deps n h",
+                "",
+                "theorem c05_semantic_universe {V : Type} (I : RefsLift.DSem V) (n : DNode) (hu : InUniverse n = true)",
+                "    (e1 e2 : Nat → V) (h : ∀ id ∈ depsOf tbl.deps n, e1 id = e2 id) : RefsLift.evalD I e1 n = RefsLift.evalD I e2 n :=",
+                "  RefsLift.value_depends_only_on_reported_universe tbl valid_deps I n hu e1 e2 h"],
         "C12": ["/-- the per-run obligation of Tie A for C12 -/",
                 "theorem valid_reduce : tbl.ValidReduce = true := by decide",
                 "",
                 "/-- hence pickling round-trips every object graph over the listed classes -/",
                 "theorem c12_lift (sn : String → List String) (n : DNode) (h : picklable tbl.reduce sn n = true) :",
-                "    unpickleN sn (pickleN tbl.reduce n) = n := unpickle_pickle tbl.reduce sn n h"],
+                "    unpickleN sn (pickleN tbl.reduce n) = n := unpickle_pickle tbl.reduce sn n h",
+                "",
+                "/-- with a hypothesis on the object graph alone (classes of the universe, constructor slots in order) -/",
+                "theorem c12_lift_universe (n : DNode) (h : InUniverseCtor n = true) :",
+                "    unpickleN ctorSlots (pickleN tbl.reduce n) = n := unpickle_pickle_universe tbl valid_reduce n h"],
     }
     base = out_lean[:-5] if out_lean.endswith(".lean") else out_lean
     for prop, tail in tails.items():
